@@ -1,11 +1,15 @@
 package bgp
 
 import (
+	"errors"
 	"fmt"
+	"io"
 	"sort"
 	"strings"
 
+	risapi "github.com/bio-routing/bio-rd/cmd/ris/api"
 	bnet "github.com/bio-routing/bio-rd/net"
+	"github.com/bio-routing/bio-rd/risclient"
 	"github.com/bio-routing/bio-rd/route"
 	routeapi "github.com/bio-routing/bio-rd/route/api"
 	"github.com/bio-routing/bio-rd/routingtable"
@@ -13,6 +17,7 @@ import (
 	"github.com/bio-routing/bio-rd/routingtable/filter"
 	"github.com/bio-routing/bio-rd/routingtable/locRIB"
 	"github.com/bio-routing/bio-rd/routingtable/mergedlocrib"
+	"google.golang.org/grpc"
 	"verif.local/simrt"
 )
 
@@ -30,6 +35,11 @@ func genC29(seed uint64) *Plan {
 	nsrc := 2 + r.Intn(3)
 	nroutes := 2 + r.Intn(4)
 	pl.Params = map[string]int64{"sources": int64(nsrc), "routes": int64(nroutes)}
+	if r.Chance(0.5) {
+		// the sources are real RIS clients: updates arrive on their ObserveRIB stream (simulated
+		// transport) and a drop is the stream ending with EOF or a transport error
+		pl.Params["ris"] = 1
+	}
 	concurrent := r.Chance(0.4)
 	if concurrent {
 		pl.Sim.GateProb = pick(r, []float64{0.5, 1})
@@ -72,7 +82,32 @@ type c29Op struct {
 	Route int
 }
 
+// risStream is the simulated ObserveRIB stream of one source session.
+type risStream struct {
+	grpc.ClientStream
+	ch chan *risapi.RIBUpdate
+	mu simrt.InternalLock
+	er error
+}
+
+func (s *risStream) Recv() (*risapi.RIBUpdate, error) {
+	u, ok := <-s.ch // blocks durably inside the bubble
+	if !ok {
+		s.mu.Lock()
+		defer s.mu.Unlock()
+		return nil, s.er
+	}
+	return u, nil
+}
+
+type risSource struct {
+	cl     *risclient.RISClient
+	stream *risStream      // the session updates are currently written to
+	next   chan *risStream // sessions in the order the client will serve them
+}
+
 type c29Oracle struct {
+	ris     []*risSource
 	rib     *locRIB.LocRIB
 	merged  *mergedlocrib.MergedLocRIB
 	srcs    []*mergeSrc
@@ -99,7 +134,29 @@ func (o *c29Oracle) Init(w *World) {
 		o.rts = append(o.rts, r)
 		o.routes = append(o.routes, r.ToProto())
 	}
+	if w.Plan.Params["ris"] == 1 {
+		for i := range o.srcs {
+			cc := &grpc.ClientConn{} // the source's identity in the merged RIB
+			rs := &risSource{cl: risclient.New(&risclient.Request{}, cc, o.merged), next: make(chan *risStream, 256)}
+			o.ris = append(o.ris, rs)
+			o.startStream(w, i)
+			// like RISClient.run: one goroutine per source serves one stream after the other
+			go func() {
+				for st := range rs.next {
+					risclient.VerifServiceLoop(rs.cl, st)
+				}
+			}()
+		}
+	}
 	w.Data["exec:mg_op"] = func(w *World, i int, s *Step) { o.apply(w, i, s) }
+}
+
+// startStream opens the next session of RIS source i.
+func (o *c29Oracle) startStream(w *World, i int) {
+	rs := o.ris[i]
+	st := &risStream{ch: make(chan *risapi.RIBUpdate, 64)}
+	rs.stream = st
+	rs.next <- st
 }
 
 func (o *c29Oracle) apply(w *World, i int, s *Step) {
@@ -110,6 +167,22 @@ func (o *c29Oracle) apply(w *World, i int, s *Step) {
 		o.dups++
 	}
 	run := func() {
+		if o.ris != nil {
+			// through the source's stream; the receive loop does the rest
+			rs := o.ris[s.Peer]
+			switch s.Label {
+			case "add":
+				rs.stream.ch <- &risapi.RIBUpdate{Advertisement: true, Route: o.routes[s.N]}
+			case "remove":
+				rs.stream.ch <- &risapi.RIBUpdate{Advertisement: false, Route: o.routes[s.N]}
+			case "drop":
+				rs.stream.mu.Lock()
+				rs.stream.er = pickErr(s.N)
+				rs.stream.mu.Unlock()
+				close(rs.stream.ch)
+			}
+			return
+		}
 		switch s.Label {
 		case "add":
 			o.merged.AddRoute(src, o.routes[s.N])
@@ -134,12 +207,33 @@ func (o *c29Oracle) apply(w *World, i int, s *Step) {
 			delete(m, s.Peer)
 		}
 	}
-	w.Go(name, run)
+	if o.ris != nil {
+		run() // the step only hands the update to the transport; the source's own loop is the caller
+		if s.Label == "drop" {
+			w.Env.fault("ris_stream_ends")
+			if !par {
+				w.Env.Sim.Settle()
+			}
+			o.startStream(w, s.Peer) // the client reconnects
+		}
+		if !par {
+			w.Env.Sim.Settle()
+		}
+	} else {
+		w.Go(name, run)
+	}
 	if !par {
 		if len(w.PendingTasks()) == 0 {
 			o.check(w, fmt.Sprintf("after op %d %s", i, name))
 		}
 	}
+}
+
+func pickErr(n int) error {
+	if n%2 == 0 {
+		return io.EOF
+	}
+	return errors.New("rpc error: code = Unavailable desc = transport is closing")
 }
 
 func (o *c29Oracle) present(k int) bool {
